@@ -6,7 +6,7 @@ RULE = ("each of the 9 entropy codecs: encode a block after 7 leading bits, appe
 
 def check(run):
     from props import _stream
-    _stream.check(run, PID, "c12", RULE, extra_cmds=("bcm", "fpm", "alm"))
+    _stream.check(run, PID, "c12", RULE, extra_cmds=("bcm", "fpm", "alm", "rgm"))
 
 def replay(path):
     import json
